@@ -11,11 +11,16 @@ sys.path.insert(0, HERE)
 BASELINE = ("cd /repo && /venv/bin/python -m pytest -ra -q -p no:cacheprovider "
             "--timeout=900 --continue-on-collection-errors")
 
-NOTE = ("Decides the listed structural clauses (necessary conditions of the property) "
-        "exhaustively over all their sites in the current working tree of /repo, from the "
-        "source alone (ast); it does NOT decide the behavioural equality the property states. "
-        "Trusted base: CPython's ast parser, the rule implementations under /verif/sa, sympy "
-        "semantics of the calls the rules treat as primitives.")
+NOTE = ("Decides the listed clauses (necessary conditions of the property) from the source of /repo alone: the "
+        "functions named by the rules are evaluated by /verif's own abstract interpreter (sa/symex.py: symbolic terms for "
+        "everything the analysis does not look into, forking on symbolic branches by decision replay, bounded unrolling of "
+        "loops over symbolic collections; no constraint solver) on small abstract inputs chosen by the rule, and the "
+        "evaluated values / sums of products / decision tables are compared with expected behaviour written down "
+        "independently in the rule.  adcgen is never imported or executed.  The verdict depends on what the code computes, "
+        "not on how it is spelled (checked by behaviour-preserving witnesses and the refactoring corpus).  It does NOT decide "
+        "the behavioural equality the property states for all inputs: inputs are bounded as listed, and the primitives named "
+        "in the assumptions (sympy, wicks, ...) are uninterpreted or modelled.  Trusted base: CPython's ast parser, the "
+        "evaluator and rule implementations under /verif/sa.")
 
 
 def main():
@@ -44,15 +49,16 @@ def main():
             "engine": "sa",
             "level_claimed": {
                 "category": "other",
-                "text": ("Static analysis of /repo's source: " + m.EXPLANATION +
-                         " Every rule is evaluated on every site of its schema; a passing run "
-                         "means these structural necessary conditions hold, not that the "
-                         "behavioural property is proved."),
+                "text": ("Static analysis of /repo's source by abstract evaluation: " + m.EXPLANATION +
+                         " A passing run means these necessary conditions hold on the explored abstract "
+                         "inputs, not that the behavioural property is proved."),
                 "design_ref": f"DESIGN.md section 4, {pid}",
             },
             "level_note": NOTE + " " + " ".join(m.ASSUMPTIONS),
-            "technique": getattr(m, "TECHNIQUE", "custom AST-based static analysis: "
-                                 "guard dominance, decision-table extraction, sibling agreement"),
+            "technique": getattr(m, "TECHNIQUE", "repository-specific static analysis: abstract interpretation of the "
+                                 "source over symbolic terms (uninterpreted calls, decision replay, bounded unrolling) "
+                                 "with value / decision-table / sum-of-products comparison against independently "
+                                 "written expected behaviour; no execution of adcgen, no solver"),
         })
     man = {
         "version": 1,
@@ -68,9 +74,10 @@ def main():
         "engines": [{
             "name": "sa", "path": "sa/",
             "serves_properties": [c["property_id"] for c in checks],
-            "kind_free_text": "repository-specific static analysis on Python's ast (path "
-                              "conditions, def-use, finite decision-table extraction, formula "
-                              "IR, permutation groups); never imports or runs adcgen",
+            "kind_free_text": "repository-specific static analysis on Python's ast: an abstract interpreter over "
+                              "symbolic terms (sa/symex.py), a concrete decision-table evaluator (sa/abseval.py), a "
+                              "shape-flow analysis (sa/shapeflow.py) and rule-side models/oracles; never imports or "
+                              "runs adcgen",
         }],
         "checks": checks,
         "not_applicable": na,
